@@ -172,13 +172,15 @@ def images_edited(sym, primed_by):
     sym.check("and-again", obj.dumps() == fresh)
 
 
-def treeinfo_edited(sym, primed_by):
-    """a tree is dumped (or loaded), then its variants, platforms, images and checksums change"""
+def treeinfo_edited(sym, primed_by, arch_edit=False):
+    """a tree is dumped (or loaded), then its variants, platforms, images and checksums change
+    arch_edit: the tree's own arch changes as well (it is not listed among the platforms explicitly; the images belong to another platform)"""
     import productmd.treeinfo as T
     text = [(33, 36), (38, 126)]
     names = [sym.str("vname%d" % i, 2, minlen=1, alphabet=text) for i in range(3)]
     img = [sym.str("img%d" % i, 2, minlen=1, alphabet=[(97, 122)]) for i in range(2)]
     cs = [sym.str("sum%d" % i, 2, minlen=1, alphabet="hexlower") for i in range(2)]
+    plat = "xen" if arch_edit else "x86_64"
 
     def build(stage):
         ti = T.TreeInfo()
@@ -187,27 +189,31 @@ def treeinfo_edited(sym, primed_by):
         ti.release.version = "21"
         ti.tree.arch = "x86_64"
         ti.tree.build_timestamp = 1417653453
-        ti.tree.platforms = set(["x86_64", "xen"])
+        ti.tree.platforms = set(["xen", "lpae"]) if arch_edit else set(["x86_64", "xen"])
         v = T.Variant(ti)
         v.id, v.uid, v.name, v.type = "Server", "Server", names[0], "variant"
         v.paths.packages = "Server/Packages"
         ti.variants.add(v)
-        ti.images.images["x86_64"] = {"boot.iso": img[0]}
+        ti.images.images[plat] = {"boot.iso": img[0]}
         ti.checksums.add("images/boot.iso", "sha256", cs[0])
         if stage == "B":
+            if arch_edit and primed_by == "load":
+                ti.tree.platforms.add("x86_64")          # a loaded tree lists its (then) own arch among the platforms: that is content from then on
             edit(ti)
         return ti
 
     def edit(ti):
-        ti.tree.platforms.discard("xen")
+        if arch_edit:
+            ti.tree.arch = "aarch64"
+        ti.tree.platforms.discard("lpae" if arch_edit else "xen")
         ti.tree.platforms.add("ppc64le")          # same size, other content
         ti.variants["Server"].name = names[1]
         w = T.Variant(ti)
         w.id, w.uid, w.name, w.type = "Client", "Client", names[2], "variant"
         w.paths.packages = "Client/Packages"
         ti.variants.add(w)
-        del ti.images.images["x86_64"]["boot.iso"]
-        ti.images.images["x86_64"]["kernel"] = img[1]
+        del ti.images.images[plat]["boot.iso"]
+        ti.images.images[plat]["kernel"] = img[1]
         ti.checksums.checksums.pop("images/boot.iso")
         ti.checksums.add("images/efiboot.img", "sha256", cs[1])
     obj = build("A")
@@ -480,6 +486,7 @@ def jobs(tier, seed):
             out.append({"harness": "composeinfo_edited", "params": {"primed_by": primed_by, "how": how}})
         out.append({"harness": "images_edited", "params": {"primed_by": primed_by}})
         out.append({"harness": "treeinfo_edited", "params": {"primed_by": primed_by}})
+        out.append({"harness": "treeinfo_edited", "params": {"primed_by": primed_by, "arch_edit": True}})
     for j in out:
         j["replay_hashseeds"] = 12          # a set-order dependence shows natively only under some hash seeds
     return out
